@@ -142,3 +142,30 @@ func Harness_C05_Flatten() {
 		}
 	}
 }
+
+// the import lines of a file are found whatever version its (remote-style) name carries:
+// name = path + ".sysl" + "@" + arbitrary version bytes
+//
+//verif:shard-quick 8 4
+//verif:shard-thorough 16 5
+func Harness_C05_VersionedNames() {
+	L := 3
+	if nd.Thorough() {
+		L = 4
+	}
+	ver := nd.String("version", L)
+	for i := 0; i < len(ver); i++ {
+		c := ver[i]
+		nd.Assume(c > 0x20 && c < 0x7f && c != '@')
+	}
+	name := "//host/org/repo/lib/a.sysl"
+	if len(ver) > 0 {
+		name += "@" + ver
+	}
+	content := "import b\n# comment\nimport c as X\nApp:\n    ...\n"
+	got := extractImports(name, []byte(content))
+	nd.Assert("versions:imports-of-a-versioned-file-are-followed", got.String() == "import b\nimport c as X\n")
+	// the keyword may be followed by a tab (the lexer takes any white space); "importx" is not an import
+	got = extractImports("a.sysl", []byte("import\tb\nimportx\nimport  c\nApp:\n    ...\n"))
+	nd.Assert("versions:imports-with-a-tab-after-the-keyword-are-followed", got.String() == "import\tb\nimport  c\n")
+}
